@@ -118,4 +118,38 @@ def factorize (g : MG Name) (q : Event) : Except Err (Expr × Event) := do
   let product := productSafe (factors.map probOf)
   pure (sumSafe product (names.filter (fun n => decide (n ∉ outcome))), resultEvent)
 
+/-! ### the three syntactic query classes on which the two-symbol representation of the factorisation cannot express
+`P(query)` (open findings `factorisation-value:*`; mirrored by `_factorise_causes` in harness/props/c19.py, cross-checked
+through the driver op `factorize_classes`) -/
+
+/-- `D_* = An(Y_*)` as accumulated by `do_counterfactual_factor_factorization` -/
+def ancestralSet (g : MG Name) (q : Event) : Except Err (List Var) := q.foldlM (ancStep g) []
+
+/-- **multi-world**: one graph vertex occurs as two different counterfactual variables in `An(Y_*)` -/
+def multiWorld (D : List Var) : Bool := D.any fun a => D.any fun b => decide (a.name = b.name ∧ a ≠ b)
+
+/-- **literal-bound**: an unstarred literal subscript `-X` of the query names a vertex of `An(Y_*)` that is summed out
+(not an outcome), so the summation index captures it (a starred subscript `+X` cannot be captured) -/
+def literalBound (q : Event) (D : List Var) : Bool :=
+  q.any fun p => p.1.ivs.any fun i =>
+    !i.star && decide (i.name ∈ D.map (·.name)) && decide (i.name ∉ q.map (·.1.name))
+
+/-- **outcome-parent-value**: a member `W_z` of `An(Y_*)` has a parent `P` that it does not intervene on (so the
+conversion ADDS the subscript `-P`) and `P` is an outcome whose event value is not `-P` (it is `+P` or `None`) -/
+def outcomeParentValue (g : MG Name) (q : Event) (D : List Var) : Bool :=
+  D.any fun w => (g.parents w.name).any fun p =>
+    decide (p ∉ w.ivs.map (·.name)) && decide (p ∈ D.map (·.name)) &&
+      q.any fun it => decide (it.1.name = p ∧ it.2 ≠ some ⟨p, false⟩)
+
+/-- the three class flags of a query: (multi-world, literal-bound, outcome-parent-value) -/
+def factorizeClasses (g : MG Name) (q : Event) : Except Err (Bool × Bool × Bool) := do
+  let D ← ancestralSet g q
+  pure (multiWorld D, literalBound q D, outcomeParentValue g q D)
+
+/-- the query has a reading in the functional-SCM semantics used by the value theorem: no variable intervenes on itself
+and no variable intervenes twice on one name -/
+def readableQuery (q : Event) : Bool :=
+  q.all fun p => !(p.1.ivs.any fun i => i.name == p.1.name) &&
+    p.1.ivs.all fun i => p.1.ivs.all fun j => decide (i.name = j.name → i = j)
+
 end Y0.Ctf
